@@ -681,7 +681,8 @@ def comment_deletion_pairs(exe, rnd, n, verdict):
             '"open # not a comment', 'v ; w']
     cases, metas = [], []
     for i in range(n):
-        D, C = rnd.choice([("=", "#"), ("=", "#;"), (":=", "#"), (" =", "#"), ("=", ";")])
+        # (comment characters may be any characters: also a letter, a digit, a bracket - a line that starts with one is a comment)
+        D, C = rnd.choice([("=", "#"), ("=", "#;"), (":=", "#"), (" =", "#"), ("=", ";"), ("=", "#Z"), ("=", ";["), ("=", "7#"), (":=", "Q;")])
         base = []
         for _ in range(rnd.randint(1, 6)):
             x = rnd.random()
@@ -692,15 +693,17 @@ def comment_deletion_pairs(exe, rnd, n, verdict):
             else:
                 sep = rnd.choice([D[-1], " %s " % D[-1], "%s " % D[-1]])
                 base.append("%sk%d%s%s" % (rnd.choice(["", "", " "]), rnd.randint(0, 3), sep, rnd.choice(vals)))
+        # (the unusual comment characters must not occur inside the entry lines themselves: there they would start trailing comments)
+        base = [ln for ln in base if not any(ch in ln for ch in C if ch not in "#;")] or ["k0%sv" % D[-1]]
         withc = []
         nins = 0
         for ln in base:
             while rnd.random() < 0.35:
-                withc.append(rnd.choice(["", "", " ", "\t", "   "]) + rnd.choice(C) + "".join(rnd.choice(' abz=:#;"[]\\\'0-') for _ in range(rnd.randint(0, 12))))
+                withc.append(rnd.choice(["", "", " ", "\t", "   "]) + rnd.choice(C) + "".join(rnd.choice(' abz=:#;"[]\\\'0-' + C + C) for _ in range(rnd.randint(0, 12))))
                 nins += 1
             withc.append(ln)
         while rnd.random() < 0.5 or not nins:
-            withc.append(rnd.choice(["", " ", "\t"]) + rnd.choice(C) + "".join(rnd.choice(' abz=:#;"[]') for _ in range(rnd.randint(0, 12))))
+            withc.append(rnd.choice(["", " ", "\t"]) + rnd.choice(C) + "".join(rnd.choice(' abz=:#;"[]' + C + C) for _ in range(rnd.randint(0, 12))))
             nins += 1
         if i % 50 == 7:
             # a comment line far longer than any buffer a reader might use (64 Ki, 128 Ki and a bit): inert as a whole
